@@ -2,6 +2,7 @@ import TsVerif.C17.Lemmas
 import TsVerif.C17.Lossy
 import TsVerif.C17.MergeLemmas
 import TsVerif.C17.Whole
+import TsVerif.C17.MergeMultiLemmas
 /-!
 # C17 — Highlight events are well nested and reproduce the source text exactly
 
@@ -21,7 +22,7 @@ Clause map (models: `TsVerif/C17/Model.lean`, `Merge.lean`; judges: `Judge.lean`
 | "invalid UTF-8 replaced" | `lossyFixed_eq_spec` (∀ bytes), `lossy_eq_spec_partial` (no tail loss), witnesses `lossy_drops_truncated_tail`, `lossy_drops_final_replacement` | proved / witness |
 | normalisation of the WHOLE source | `normalize_whole` (well-formed stream whose chunks do not end inside a character ⇒ decoded chunks = decoded source), `render_roundtrip_whole_fixed` | proved |
 | renderer does not panic on a well-formed stream | `render_total_of_wellFormed` | proved |
-| Source spans contiguous/increasing/covering, Start/End nested and closed | `merge_wellformed_partial` (model of the merge of ONE layer: `highlight_end_stack`, `emit_event`, `next_event`; tied by correspondence); several layers (`sort_key`, `sort_layers`, `insert_layer`) OPEN | proved for one layer, judged on every real stream |
+| Source spans contiguous/increasing/covering, Start/End nested and closed | `merge_wellformed_partial` (model of the merge of ONE layer: `highlight_end_stack`, `emit_event`, `next_event`; tied by correspondence); `merge_multi_wellformed_partial` (several layers: `sort_key`, `sort_layers`, `insert_layer`, `last_highlight_range`; no locals branch; under the hypothesis that the model run finishes within its fuel); both models tied by correspondence | proved for the models, judged on every real stream |
 | injected spans inside the content, local reference like definition | judged on every real stream (`judgeInjected`, `judgeLocals`); not modelled | judge only |
 
 Boundary conventions: the renderer adds the final newline whenever the last HTML *byte* is not a
@@ -214,5 +215,58 @@ example : capsIn 7 [⟨0, 5, some 1⟩, ⟨0, 2, some 2⟩, ⟨2, 2, some 4⟩, 
 /-- The hypothesis cannot be dropped: a capture that ends beyond the source yields a `Source`
 event past the end. -/
 example : judgeEvents 3 (mergeLayer 3 [⟨1, 9, some 0⟩]) = false := by decide
+
+/-! ## Several layers -/
+
+/-- For EVERY family of layers (any depths, any raw capture sequences inside the source, any
+injection structure) the multi-layer merge — `sort_key` ties, `sort_layers` rotation, `insert_layer`,
+`last_highlight_range` — yields a well-formed stream, provided the run finishes within its fuel.
+`_partial`: (i) the finishing hypothesis (the driver reports `fin` for every real case; it fails only
+for cyclic layer references, which real layer data never has — witness below); (ii) configurations
+without a locals query.  OPEN: finishing for acyclic layer data; the locals branch. -/
+theorem merge_multi_wellformed_partial (defs : List LayerDef) (top : List Nat) (n : Nat)
+    (hd : defsIn n defs = true) (hfin : (mergeLayers defs top n).2 = true) :
+    judgeEvents n (mergeLayers defs top n).1 = true := by
+  have hdo : DefsOk n defs := by
+    intro d hdm c hc
+    have h1 := List.all_eq_true.mp hd d hdm
+    have h2 := List.all_eq_true.mp h1 c hc
+    simpa using h2
+  have hinit : ∀ (ids : List Nat), totalEnds (ids.filterMap (mkLayer defs)) = 0 ∧
+      ∀ l ∈ ids.filterMap (mkLayer defs), LayerOk n l := by
+    intro ids
+    induction ids with
+    | nil => exact ⟨rfl, fun _ h => by simp at h⟩
+    | cons id r ih =>
+      cases hm : mkLayer defs id with
+      | none => simpa [List.filterMap_cons, hm] using ih
+      | some nl =>
+        obtain ⟨he, hok⟩ := mkLayer_ok hdo hm
+        simp only [List.filterMap_cons, hm]
+        refine ⟨by simp [totalEnds, he, ih.1], ?_⟩
+        intro l hl
+        rcases List.mem_cons.mp hl with rfl | hl
+        · exact hok
+        · exact ih.2 l hl
+  unfold mergeLayers at hfin ⊢
+  have hs : SInv n { layers := sortLayers (top.filterMap (mkLayer defs)) } :=
+    sinv_sorted (Nat.zero_le _) (hinit top).2
+  have := runM_wf hdo _ _ hs hfin
+  simp only [totalEnds_sortLayers, (hinit top).1] at this
+  exact this
+
+/-- non-vacuity: an injected layer (depth 1) inside the root's span, same-range dedup across
+layers (`last_highlight_range`), collapsed patterns of one node -/
+def exLayers : List LayerDef := [
+  ⟨0, [⟨0, 6, 1, .hl (some 1)⟩, ⟨1, 4, 2, .inj [1]⟩, ⟨1, 4, 2, .hl (some 2)⟩, ⟨4, 6, 3, .hl none⟩, ⟨4, 6, 3, .hl (some 3)⟩]⟩,
+  ⟨1, [⟨1, 4, 9, .hl (some 5)⟩, ⟨2, 3, 10, .hl (some 6)⟩]⟩]
+
+example : defsIn 7 exLayers = true ∧ mergeLayers exLayers [0] 7 =
+    ([.start 1, .source 0 1, .start 5, .source 1 2, .start 6, .source 2 3, .stop, .source 3 4, .stop,
+      .start 3, .source 4 6, .stop, .stop, .source 6 7], true) := by decide
+
+/-- The finishing hypothesis cannot be dropped: a layer whose injection re-creates itself never ends. -/
+example : (mergeLayers [⟨0, [⟨0, 1, 7, .inj [0]⟩]⟩] [0] 1).2 = false ∧
+    judgeEvents 1 (mergeLayers [⟨0, [⟨0, 1, 7, .inj [0]⟩]⟩] [0] 1).1 = false := by decide
 
 end TsVerif.C17
